@@ -36,6 +36,12 @@ def generate(ctx):
         op = OPS[i % 4]
         if op == "cfg_to_pda":
             g = cfglib.rand_cfg(rng, max_vars=3, max_prods=5, max_body=3)
+            if rng.random() < 0.25:      # variables 1, 2, 3 (ints) next to terminals "1", "2": same spelling, different symbols
+                rv = {cfglib.vkey(v): i + 1 for i, v in enumerate(g["vars"])}
+                rt = {cfglib.vkey(t): str(i + 1) for i, t in enumerate(g["terms"])}
+                g = cfglib.normalise(dict(g, vars=[rv[cfglib.vkey(v)] for v in g["vars"]], terms=[rt[cfglib.vkey(t)] for t in g["terms"]],
+                                          start=rv[cfglib.vkey(g["start"])] if g.get("start") is not None else None, names="num",
+                                          prods=[[rv[cfglib.vkey(h)], [[k, (rv if k == "V" else rt)[cfglib.vkey(v)]] for k, v in b]] for h, b in g["prods"]]))
             cases.append({"op": op, "g": g, "maxlen": 3 if ctx.tier == "quick" else 4, "with_model": i % 16 == 0})
         else:
             big = ctx.tier != "quick" and rng.random() < 0.5
@@ -45,6 +51,12 @@ def generate(ctx):
                           "twice": rng.random() < 0.3, "with_model": i % 3 == 0,
                           # to_cfg after other conversions of the same object, and of objects derived from it (they share the wrapper objects)
                           "chain": op == "pda_to_cfg" and rng.random() < 0.4})
+            if op == "pda_to_cfg" and not cases[-1]["chain"] and rng.random() < 0.4:
+                # round trip through the grammar (whose variables are numbered 0, 1, 2, ...) back to a PDA, over the input symbols "0" and "1"
+                ren = {cfglib.vkey(a): str(i) for i, a in enumerate(p["inputs"])}
+                p2 = dict(p, inputs=[ren[cfglib.vkey(a)] for a in p["inputs"]],
+                          trans=[[q, (None if a is None else ren[cfglib.vkey(a)]), A, r, push] for q, a, A, r, push in p["trans"]])
+                cases[-1] = dict(cases[-1], p=p2, g=dict(cases[-1]["g"], terms=p2["inputs"]), roundtrip=True)
     return cases
 
 
@@ -74,6 +86,8 @@ def impl(case):
         p.to_cfg()
         # to_final_state then to_empty_stack accept by empty stack what p accepts by empty stack
         out = {"cfg": cfglib.extract_cfg(p.to_final_state().to_empty_stack().to_cfg())}
+    elif op == "pda_to_cfg" and case.get("roundtrip"):
+        out = {"pda": pdalib.extract_pda(p.to_cfg().to_pda())}
     elif op == "pda_to_cfg":
         out = {"cfg": cfglib.extract_cfg(p.to_cfg())}
     else:
@@ -101,6 +115,10 @@ class _Ext:
             return "(first_diff (cfg_member %s) (pda_accepts_empty %s) %s, %s)" % (G, R, ws, m)
         P = coq_pda(case["p"], pi)
         ws = cq([[ci.ter(a) for a in w] for w in _words(case["p"]["inputs"], case["maxlen"])])
+        if op == "pda_to_cfg" and case.get("roundtrip"):
+            pj = PdaInterner(sym=ci.ter)
+            R = coq_pda(obs["pda"], pj)
+            return "(first_diff (pda_accepts_empty %s) (pda_accepts_empty %s) %s, @None (list N))" % (P, R, ws)
         if op == "pda_to_cfg":
             H = coq_cfg(obs["cfg"], ci)
             m = "first_diff (pda_accepts_empty %s) (cfg_member (pda_to_cfg %s)) %s" % (P, P, ws) if case.get("with_model") else "@None (list N)"
